@@ -28,7 +28,7 @@ func fileData(seed int64, size int) []byte {
 }
 
 var genNames = []string{"a", "a-b", "a b", "ab", "a.b", "a0", "b", "\xc3\xa9", "!x", "-", "0", "A", "~",
-	"a\\b", "..a", "a:b", ".hidden", "z", "c", "d"}
+	"a\\b", "..a", "a:b", ".hidden", "z", "c", "d", "d.z", ".fsutil-metadata"}
 var longName = strings.Repeat("n", 255)
 var genSizes = []int{0, 1, 7, 100, 1000, 32767, 32768, 32769, 65536, 100000}
 var genPerms = []uint32{0644, 0600, 0755, 0444, 0400, 0777, 04755, 02755, 01777, 0640, 06711}
